@@ -31,8 +31,11 @@ def _enc(v):
     return max(-INF, min(INF, v))
 
 
+MAX_EVENTS = 20000      # per object; a longer history is cut and carries no verdict (counted as inconclusive)
+
+
 class Rec:
-    __slots__ = ("obj", "cls", "ev", "depth", "idx")
+    __slots__ = ("obj", "cls", "ev", "depth", "idx", "truncated")
 
     def __init__(self, obj, idx):
         self.obj = obj
@@ -40,6 +43,7 @@ class Rec:
         self.ev = []
         self.depth = 0
         self.idx = idx
+        self.truncated = False
 
 
 def _rec(obj):
@@ -67,7 +71,14 @@ def _wrap_bounds(fn):
         r.depth -= 1
         if r.depth == 0:
             try:
-                r.ev.append({"k": "b", "lo": _enc(res.lower_bound), "hi": _enc(res.upper_bound)})
+                e = {"k": "b", "lo": _enc(res.lower_bound), "hi": _enc(res.upper_bound)}
+                # an exposure identical to the one just recorded (nothing in between) adds nothing to the history: an
+                # object polled a million times inside somebody else's loop must not produce a million events
+                if not (r.ev and r.ev[-1] == e):
+                    if len(r.ev) < MAX_EVENTS:
+                        r.ev.append(e)
+                    else:
+                        r.truncated = True
             except Exception:
                 r.ev.append({"k": "raise", "in": "bounds", "exc": "bounds() did not return a range"})
         return res
@@ -98,7 +109,10 @@ def _wrap_tighten(fn):
             raise
         r.depth -= 1
         if outer:
-            r.ev.append({"k": "t", "r": bool(res)})
+            if len(r.ev) < MAX_EVENTS:
+                r.ev.append({"k": "t", "r": bool(res)})
+            else:
+                r.truncated = True
             if _state["active"]:
                 try:
                     self.bounds()
